@@ -145,6 +145,6 @@ def main():
     json.dump(m, open("/verif/MANIFEST.json", "w"), indent=1)
     print("checks:", len(checks), "not_applicable:", len(m["not_applicable"]))
 
-HOOK_COMMITS = ["cc5ed0e", "bc6c625"]
+HOOK_COMMITS = ["cc5ed0e", "bc6c625", "8054679"]
 if __name__ == "__main__":
     main()
